@@ -284,7 +284,11 @@ func H_C09_WrkRegister() {
 	if rt.Choose(2) == 1 {
 		owner = strings.ToUpper(owner) // bech32 also accepts the all-upper-case spelling of the same address
 	}
-	msg := &wrktypes.MsgRegisterWrkChain{Moniker: rt.Str("m.moniker"), Name: rt.Str("m.name"), GenesisHash: rt.Str("m.genesis"),
+	moniker := rt.Str("m.moniker")
+	if rt.Choose(2) == 1 {
+		moniker = " spaced moniker " // surrounding whitespace is accepted by ValidateBasic and must be stored as submitted
+	}
+	msg := &wrktypes.MsgRegisterWrkChain{Moniker: moniker, Name: rt.Str("m.name"), GenesisHash: rt.Str("m.genesis"),
 		BaseType: rt.Str("m.type"), Owner: owner}
 	rt.Assume(msg.ValidateBasic() == nil)
 	rt.Assume(pre.Highest < 18446744073709551615) // stated bound: fewer than 2^64-1 registrations
